@@ -264,6 +264,10 @@ class Gen:
                         del vars_[t]
                     elif kind == "none":
                         del vars_[t]
+                    elif kind == "single" and not mn and ip.get("ret_plain"):
+                        # the inner DAG returns ONE opaque result: the outer DAG may index it again and use it in operators
+                        # (the key path grows in the outer DAG only)
+                        vars_[t] = dict(shape=None, maybe_none=False, plain=True, elem=False, touchy=False)
                 prog["stmts"].append(st)
                 used_inner.add(iname)
                 continue
@@ -332,6 +336,11 @@ class Gen:
             prog["ret"] = ["none", []]
         elif rk < 0.3:
             prog["ret"] = ["single", [rpick()]]
+            base_ = prog["ret"][1][0].split("[")[0]
+            info_ = vars_.get(base_) or vars_.get(prog["ret"][1][0])
+            prog["ret_plain"] = bool(info_ and info_.get("plain") and not info_.get("maybe_none") and not info_.get("touchy"))
+            if info_ and "[" in prog["ret"][1][0] and (info_.get("shape") or [None])[0] in ("tuple", "list") and not info_.get("maybe_none"):
+                prog["ret_plain"] = True  # an ELEMENT of a tuple / list result: an opaque term as well (the return value carries a key path)
         elif rk < 0.6:
             # (an inner DAG nested only for its effects may return an EMPTY tuple / list / dict: still a container, not "nothing")
             empty = rng.random() < f.get("empty_returns", 0.06)
